@@ -166,8 +166,13 @@ impl TorrentMap {
         // is same as that of request sender. Otherwise, ignore request. Since
         // peers have access to each others peer_id's, they could send requests
         // using them, causing all sorts of issues.
+        //
+        // Connection ids are only unique per socket worker, so the socket
+        // worker (consumer) id has to match too.
         if let Some(previous_peer) = torrent_data.peers.get(&request.peer_id) {
-            if request_sender_meta.connection_id != previous_peer.connection_id {
+            if request_sender_meta.connection_id != previous_peer.connection_id
+                || request_sender_meta.out_message_consumer_id.0 != previous_peer.consumer_id.0
+            {
                 return;
             }
         }
